@@ -168,6 +168,36 @@ pub fn emit_asm(a: &Args, out: &mut Out) {
             out.emit(rec);
         }
     }
+    // boundary family: one statement of every size class placed so that its block ends exactly at, one before
+    // and one past xFE00 and x10000; and two blocks touching / overlapping by one word around it
+    if a.get_u64("bound", 1) == 1 {
+        let mut units: Vec<GStmt> = vec![GStmt::new("ADD", 1, 2, 3, 0), GStmt::new(".fill", 7, 0, 0, 0), GStmt::new(".blkw", 1, 0, 0, 0), GStmt::new(".blkw", 7, 0, 0, 0)];
+        for body in ["", "ab", "\u{e9}", "\u{1F600}\u{e9}x", "tab\t\"q\""] { let mut g = GStmt::new(".stringz", 0, 0, 0, 0); g.s = body.to_string(); units.push(g); }
+        for u in &units {
+            let sz = u.size() as i64;
+            for limit in [0xFE00i64, 0x10000] { for delta in [-1i64, 0, 1] {
+                let o = limit - sz + delta;
+                if o < 0 || o > 0xFFFF { continue; }
+                run += 1;
+                let prog = vec![GStmt::new(".orig", o, 0, 0, 0), u.clone().with_label("U"), GStmt::new("HALT", 0, 0, 0, 0).with_label("After"), GStmt::new(".end", 0, 0, 0, 0)];
+                let prog2 = vec![GStmt::new(".orig", o, 0, 0, 0), u.clone().with_label("U"), GStmt::new(".end", 0, 0, 0, 0).with_label("AtEnd")];
+                for p in [prog, prog2] {
+                    let r = asmgen::render(&mut rng, &p, &Style::plain());
+                    let (rec, _) = asm_record(&mut rng, run, &r.text, true, Some(&p), true);
+                    out.emit(rec);
+                }
+            } }
+            for delta in [-1i64, 0, 1] {
+                run += 1;
+                let p = vec![GStmt::new(".orig", 0x4000 + sz + delta, 0, 0, 0), GStmt::new(".fill", 1, 0, 0, 0).with_label("B2"), GStmt::new(".end", 0, 0, 0, 0),
+                             GStmt::new(".orig", 0x4000, 0, 0, 0), u.clone().with_label("U"), GStmt::new(".end", 0, 0, 0, 0)];
+                let r = asmgen::render(&mut rng, &p, &Style::plain());
+                let dbg = chance(&mut rng, 50);
+                let (rec, _) = asm_record(&mut rng, run, &r.text, dbg, Some(&p), true);
+                out.emit(rec);
+            }
+        }
+    }
     for _ in 0..n {
         run += 1;
         let cfg = cfg_for(&mut rng, a.thorough(), faults);
